@@ -37,3 +37,37 @@ def canary(ctx, mutate, expect_clause):
     reached, r = T.validate("KWN_Trace", ["CONSTANTS", '  RefreshMode = "%s"' % S.REFRESH_MODE], [ev], "kwn_canary")
     if r.violated or reached is None or not any(c[0] == expect_clause for c in reached[0]["fails"]):
         raise MachineryError("binding self-test failed: corrupted trace did not raise %s (%s)" % (expect_clause, reached))
+
+
+def _pair(args):
+    from . import kwn_pairs as P
+    a, b, perm, rtol, allowed = args
+    return P.run_pair(a, b, perm=perm, rtol=rtol, allowed=allowed)
+
+
+def judge_pairs(ctx, pairs, keyprefix):
+    """pairs: list of (cfgA, cfgB, perm or None, rtol, allowed names, label)"""
+    import concurrent.futures as cf
+    from . import traces as T
+    with cf.ProcessPoolExecutor(max_workers=min(14, len(pairs))) as ex:
+        results = list(ex.map(_pair, [(a, b, perm, rtol, allowed) for (a, b, perm, rtol, allowed, label) in pairs]))
+    traces = [r[0] for r in results]
+    import copy
+    can = copy.deepcopy(traces[0])
+    for e in can:
+        if e["e"] == "cmp":
+            e["c"] = "gt"
+            break
+    reached, res = T.validate("Equiv", [], traces + [can], keyprefix + "_equiv")
+    ctx.add_tlc(res, "Equiv over %d run pairs" % len(traces))
+    if res.violated or reached is None:
+        raise MachineryError("Equiv validation failed: %s" % res.violated)
+    if not reached[-1]["fails"]:
+        raise MachineryError("binding self-test failed: corrupted pair accepted by Equiv")
+    for (a, b, perm, rtol, allowed, label), (ev, info), v in zip(pairs, results, reached):
+        ctx.replayed += info["steps"]
+        ctx.case(label, nontrivial=info["steps"] > 10, sample={"pair": label, "A": a, "B": b} if len(ctx.samples) < 3 else None)
+        if v["l"] != len(ev) + 1 or v["fails"]:
+            names = sorted(f[0] for f in v["fails"])
+            ctx.violation("%s:%s:%s" % (keyprefix, label.split("/")[0], ",".join(names)[:80]), "pair '%s' differs in %s" % (label, v["fails"]),
+                          {"A": a, "B": b, "fails": v["fails"]})
